@@ -818,7 +818,12 @@ func runPushTiny(t *testing.T, tape *Tape, w *World, variant string, steps int, 
 				fail(viol("C12", "status", "Publish: %v", err))
 				return
 			}
-			ids = append(ids, resp.(*pubsubpb.PublishResponse).MessageIds[0])
+			mid, v := oneMessageID(resp)
+			if v != nil {
+				fail(v)
+				return
+			}
+			ids = append(ids, mid)
 		}
 	})
 	for slice := 0; slice < 40 && firstViol == nil; slice++ {
